@@ -47,6 +47,9 @@ def mk(d, bv, iv):
         if not isinstance(a, Expr) and not isinstance(b, Expr):
             raise Unbuildable()
         return a + b if t == "add" else a - b
+    if t in ("nadd", "nsub"):      # n-ary node built directly (legal in the expression layer: "n-ary + and -")
+        from cspuz.expr import IntExpr, Op
+        return IntExpr(Op.ADD if t == "nadd" else Op.SUB, [mk(x, bv, iv) for x in d[1]])
     if t == "cond":       # method form
         c, x, y = mk(d[1], bv, iv), mk(d[2], bv, iv), mk(d[3], bv, iv)
         if not isinstance(c, Expr):
@@ -124,7 +127,7 @@ def is_lit(d):
 CONSTRUCTORS = {
     "neg": ("I", ("I",)), "add": ("I", ("I", "I")), "sub": ("I", ("I", "I")),
     "cond": ("I", ("B", "I", "I")), "ccond": ("I", ("B", "I", "I")),
-    "count_true": ("I", ("Bs",)), "m_count_true": ("I", ("B",)),
+    "count_true": ("I", ("Bs",)), "m_count_true": ("I", ("B",)), "nadd": ("I", ("Is1",)), "nsub": ("I", ("Is1",)),
     "eq": ("B", ("I", "I")), "ne": ("B", ("I", "I")), "lt": ("B", ("I", "I")), "le": ("B", ("I", "I")),
     "gt": ("B", ("I", "I")), "ge": ("B", ("I", "I")),
     "not": ("B", ("B",)), "and": ("B", ("B", "B")), "or": ("B", ("B", "B")), "iff": ("B", ("B", "B")),
@@ -152,6 +155,8 @@ def buildable(d):
     def lit_valued(x):
         # does the built object end up a Python literal?  (only literals themselves do)
         return x[0] == "lit"
+    if t == "nsub" and len(args[0]) < 2:
+        return False          # a one-operand SUB is not a program the library can produce; Sugar reads "(- x)" as negation
     if t in ("neg", "not", "m_count_true", "m_fold_or", "m_fold_and", "cond", "then"):
         return not lit_valued(args[0])
     if t in ("add", "sub") + INT_CMP + BOOL_BIN:
@@ -175,6 +180,8 @@ def depth1(nb=2, ni=2, max_list=3):
                 pools.append(I)
             elif k == "Bs":
                 pools.append([list(c) for n in range(max_list + 1) for c in itertools.product(Bl, repeat=n)])
+            elif k == "Is1":
+                pools.append([list(c) for n in range(1, max_list + 2) for c in itertools.product(Il, repeat=n)])
             else:
                 pools.append([list(c) for n in range(max_list + 1) for c in itertools.product(Il, repeat=n)])
         for combo in itertools.product(*pools):
@@ -201,7 +208,9 @@ def _fill(rng, name, depth, nb, ni, force=None):
     for pos, k in enumerate(aks):
         if force is not None and force[0] == pos:
             sub = force[1]
-            args.append([sub] + [random_tree(rng, k[0], depth - 1, nb, ni) for _ in range(rng.randint(0, 2))] if k in ("Bs", "Is") else sub)
+            args.append([sub] + [random_tree(rng, k[0], depth - 1, nb, ni) for _ in range(rng.randint(0, 2))] if k in ("Bs", "Is", "Is1") else sub)
+        elif k == "Is1":
+            args.append([random_tree(rng, "I", depth - 1, nb, ni) for _ in range(rng.randint(1, 4))])
         elif k in ("Bs", "Is"):
             args.append([random_tree(rng, k[0], depth - 1, nb, ni) for _ in range(rng.randint(0, 3))])
         else:
@@ -222,6 +231,26 @@ def pair_cover(rng, depth, reps, nb=2, ni=2):
                     for _try in range(20):
                         child = _fill(rng, cn, depth - 1, nb, ni)
                         d = _fill(rng, pn, depth, nb, ni, force=(pos, child))
+                        if buildable(d):
+                            out.append(d)
+                            break
+                # the same pair with every sibling operand a Python literal, and with every sibling a variable
+                # (reflected operator forms such as  literal - (a - b)  are separate code paths)
+                if not any(a in ("Bs", "Is", "Is1") for a in paks):
+                    for sib in ("lit", "var"):
+                      for _try in range(12):
+                        child = _fill(rng, cn, 1, nb, ni)
+                        if not buildable(child):
+                            continue
+                        args = []
+                        for q, a in enumerate(paks):
+                            if q == pos:
+                                args.append(child)
+                            elif sib == "lit":
+                                args.append(("lit", rng.choice([True, False])) if a == "B" else ("lit", rng.choice(INT_LITS)))
+                            else:
+                                args.append(("bv", rng.randrange(nb)) if a == "B" else ("iv", rng.randrange(ni)))
+                        d = (pn,) + tuple(args)
                         if buildable(d):
                             out.append(d)
                             break
@@ -271,6 +300,12 @@ def ref_desc(d, zb, zi):
         return R(d[1]) + R(d[2])
     if t == "sub":
         return R(d[1]) - R(d[2])
+    if t in ("nadd", "nsub"):
+        xs = [R(x) for x in d[1]]
+        r = xs[0]
+        for x in xs[1:]:
+            r = r + x if t == "nadd" else r - x
+        return r
     if t in ("cond", "ccond"):
         return z3.If(R(d[1]), R(d[2]), R(d[3]))
     if t == "count_true":
@@ -319,6 +354,12 @@ def py_desc(d, vb, vi):
         return P(d[1]) + P(d[2])
     if t == "sub":
         return P(d[1]) - P(d[2])
+    if t in ("nadd", "nsub"):
+        xs = [P(x) for x in d[1]]
+        r = xs[0]
+        for x in xs[1:]:
+            r = r + x if t == "nadd" else r - x
+        return r
     if t in ("cond", "ccond"):
         return P(d[2]) if P(d[1]) else P(d[3])
     if t == "count_true":
